@@ -28,6 +28,7 @@
    every generated program completely (a program with a parse error is a generator defect and
    stops the check with exit 2 -- it is never counted as a violation).                     *)
 EXTENDS Integers, Sequences
+CONSTANT D        \* nesting fuel of the start symbol
 
 T(s)     == [k |-> "t", s |-> s, d |-> 0]
 NT(s, d) == [k |-> "n", s |-> s, d |-> d]
@@ -114,6 +115,11 @@ Alts(x) ==
            <<T("&"), T("%KEY"), T("=")>>, <<T("&"), T("%KEY")>> }
     [] x.s = "BElem" -> { << >>, <<T("%BWB")>>, <<NT("Cmpd", d)>> }
 
+NTNames == {"Chunk", "Pipes", "Pipeline", "Args", "Cmpd", "Idx", "IdxNB", "Index", "Elems",
+            "Pairs", "Pair", "BElem"}
+\* constant-level table of the alternatives (TLC evaluates it once)
+AltTable == [s \in NTNames |-> [d \in 0..D |-> Alts(NT(s, d))]]
+
 VARIABLE form
 
 RECURSIVE FirstNT(_, _)
@@ -123,8 +129,17 @@ Done == FirstNT(form, 1) = 0
 
 Expand == LET i == FirstNT(form, 1) IN
           /\ i > 0
-          /\ \E a \in Alts(form[i]) :
+          /\ \E a \in AltTable[form[i].s][form[i].d] :
                form' = SubSeq(form, 1, i - 1) \o a \o SubSeq(form, i + 1, Len(form))
+
+\* least number of expansions that completes a sentential form (to prune dead ends of a
+\* bounded enumeration; it does not change the set of programs with at most S expansions)
+MinSteps(name) == CASE name \in {"Pipes"} -> 3
+                    [] name \in {"Pipeline", "Elems", "Pairs"} -> 2
+                    [] OTHER -> 1
+RECURSIVE Need(_, _)
+Need(f, i) == IF i > Len(f) THEN 0
+              ELSE (IF f[i].k = "n" THEN MinSteps(f[i].s) ELSE 0) + Need(f, i + 1)
 
 Tokens == [i \in 1..Len(form) |-> form[i].s]
 =============================================================================
